@@ -130,8 +130,8 @@ func runC02(c *core.Ctx) {
 		lay      harness.Layout
 		formKind int
 		form     func(time.Time) string
-		idpInit  bool // SP configured with AllowIDPInitiated (the windows must hold regardless)
-		noDest   bool // Response without Destination (allowed when the Response itself is unsigned)
+		idpInit  bool   // SP configured with AllowIDPInitiated (the windows must hold regardless)
+		noDest   bool   // Response without Destination (allowed when the Response itself is unsigned)
 		method   string // SubjectConfirmation Method of the varied confirmation ("" = bearer): the window holds for every confirmation
 	}
 	build := func(s spec, t tol) ([]byte, string) {
